@@ -335,8 +335,7 @@ func (a *Accounts) get(address types.Address) *Model {
 		account.coins = coins
 	}
 
-	a.setToMap(address, account)
-	return account
+	return a.setToMapIfAbsent(address, account)
 }
 
 func (a *Accounts) getOrNew(address types.Address) *Model {
@@ -473,4 +472,18 @@ func (a *Accounts) setToMap(address types.Address, model *Model) {
 	defer a.lock.Unlock()
 
 	a.list[address] = model
+}
+
+// setToMapIfAbsent caches a record that was just loaded from the tree unless another goroutine
+// (an API query running next to block execution) has loaded and cached the same record in the
+// meantime; it returns the cached object, so that every caller works on one and the same object.
+func (a *Accounts) setToMapIfAbsent(address types.Address, model *Model) *Model {
+	a.lock.Lock()
+	defer a.lock.Unlock()
+
+	if existing := a.list[address]; existing != nil {
+		return existing
+	}
+	a.list[address] = model
+	return model
 }
